@@ -1,10 +1,12 @@
 package main
 
 import (
+	"bufio"
 	"bytes"
 	"encoding/hex"
 	"fmt"
 	"io"
+	"strings"
 
 	"github.com/M2MGateway/go-smpp/sms"
 )
@@ -123,6 +125,7 @@ func corrC18(r *Run) {
 		tryS(in, "corpus", "corpus", i < c18Pinned)
 	}
 	c18FieldDecoders(r)
+	c18ReaderScripts(r)
 	// every first octet x failure bit x SC present, with a short tail
 	for sc := 0; sc < 2; sc++ {
 		for fo := 0; fo < 256; fo += 1 {
@@ -236,5 +239,58 @@ func c18FieldDecoders(r *Run) {
 				}
 			}
 		}
+	}
+}
+
+// c18ReaderScripts ties the bufio model of Model/TpduReader.v (about which C18_reader_independence_partial speaks) to
+// the real bufio.Reader: a random script of the four primitives the decoder uses (ReadByte, readFull = io.ReadFull with
+// io.ErrUnexpectedEOF read as nil, Peek, Discard) runs on bufio.NewReader over a reader with a random chunk schedule;
+// the model must give the same observations on the chunked reader AND on the plain list.  Go library behaviour only:
+// independent of the repository's code, so these are ordinary (strict) cases.
+func c18ReaderScripts(r *Run) {
+	r.Import("Model.TpduReader")
+	n := r.N(120, 1200)
+	for i := 0; i < n; i++ {
+		data := r.Rng.Bytes(r.Rng.Intn(40))
+		sched := randSched(r.Rng, len(data)/(1+r.Rng.Intn(3)))
+		eofd := r.Rng.Bool()
+		br := bufio.NewReader(&schedReader{data: append([]byte{}, data...), sched: append([]int{}, sched...), eofWithData: eofd})
+		var ops, obs []string
+		for k := 0; k < 2+r.Rng.Intn(7); k++ {
+			var got []byte
+			var err error
+			arg := r.Rng.Intn(9)
+			switch r.Rng.Intn(4) {
+			case 0:
+				var b byte
+				b, err = br.ReadByte()
+				got = []byte{b}
+				ops = append(ops, "RByte")
+			case 1:
+				got = make([]byte, arg)
+				if _, err = io.ReadFull(br, got); err == io.ErrUnexpectedEOF {
+					err = nil
+				}
+				ops = append(ops, fmt.Sprintf("RFull %d", arg))
+			case 2:
+				got, err = br.Peek(arg)
+				ops = append(ops, fmt.Sprintf("RPeek %d", arg))
+			default:
+				_, err = br.Discard(arg)
+				ops = append(ops, fmt.Sprintf("RDiscard %d", arg))
+			}
+			if err != nil {
+				obs = append(obs, "None")
+				break
+			}
+			obs = append(obs, "(Some "+coqHex(got)+")")
+		}
+		sc := make([]string, len(sched))
+		for j, x := range sched {
+			sc[j] = fmt.Sprintf("%d%%nat", x)
+		}
+		r.Count(fmt.Sprintf("readerscript/%d", i), true, "bufio script on a chunked reader")
+		r.Case(fmt.Sprintf("bufio script %x %v %v: %s", data, sched, eofd, strings.Join(ops, "; ")),
+			fmt.Sprintf("script_is %s %s %s %s %s", coqHex(data), coqList(sc), coqBool(eofd), coqList(ops), coqList(obs)))
 	}
 }
